@@ -26,8 +26,8 @@ use duckscript::types::runtime::{Context, StateValue};
 pub struct C11Prop;
 pub static C11: C11Prop = C11Prop;
 
-const NAMES_D: [&str; 8] = ["a", "b", "ab", "p::q", "p::r", "x y", "", "é漢"];
-const NAMES_S: [&str; 6] = ["a", "b", "ab", "p::q", "p::r", "x"];
+const NAMES_D: [&str; 11] = ["a", "b", "ab", "p::q", "p::r", "x y", "", "é漢", "p::::c", "p::", "::p"];
+const NAMES_S: [&str; 8] = ["a", "b", "ab", "p::q", "p::r", "x", "p::::c", "p::q::r"];
 /// plain words that survive parsing and expansion unchanged (mode S)
 const WORDS_S: [&str; 14] = ["1", "v", "true", "false", "0", "no", "NO", "or", "--copy", "--prefix", "p::", "a", "p", "zz"];
 const FALSY: [&str; 6] = ["", "0", "false", "no", "FALSE", "No"];
@@ -512,7 +512,7 @@ impl<'a> Gen<'a> {
                 }
             }
             68..=73 => {
-                let scopes = ["p", "a", "p::q", "", "ab", "x", "scope"];
+                let scopes = ["p", "a", "p::q", "", "ab", "x", "scope", "p::", "p::::", "::"];
                 if self.rng.chance(1, 8) {
                     cmd("clear_scope", vec![])
                 } else {
@@ -612,7 +612,22 @@ impl Prop for C11Prop {
         let reserved = !script && rng.chance(1, 10);
         let n = 1 + if rng.chance(1, 3) { rng.below(60) } else { rng.below(20) };
         let mut g = Gen { rng, script, reserved, depth: 0, tokens: 0 };
-        let ops: Vec<Op> = (0..n).map(|_| g.op()).collect();
+        let mut ops: Vec<Op> = (0..n).map(|_| g.op()).collect();
+        if !script && g.rng.chance(1, 25) {
+            // a DEEP stack: 60-260 pushes (each after a fresh assignment) and as many pops, + 2
+            let d = 60 + g.rng.below(200);
+            let mut deep = vec![Op::Cmd { out: Some("root".to_string()), cmd: "set".to_string(), args: vec!["outer".to_string()] }];
+            for i in 0..d {
+                let copy = if i % 7 == 3 { vec!["--copy".to_string(), "root".to_string()] } else { vec![] };
+                deep.push(Op::Cmd { out: None, cmd: "scope_push_stack".to_string(), args: copy });
+                deep.push(Op::Cmd { out: Some("level".to_string()), cmd: "set".to_string(), args: vec![i.to_string()] });
+            }
+            for _ in 0..d + 2 {
+                deep.push(Op::Cmd { out: Some("popped".to_string()), cmd: "scope_pop_stack".to_string(), args: vec![] });
+            }
+            deep.extend(ops);
+            ops = deep;
+        }
         let stacky = ops.iter().any(|o| matches!(o, Op::Cmd { cmd, .. } if cmd.starts_with("scope_")));
         let mode = if script { "S" } else { "D" };
         Case {
